@@ -88,11 +88,19 @@ pub async fn mux_server(mut server: ServerEnd, mut rng: Rng, opts: MuxOpts) -> M
     let mut used: Vec<i64> = vec![];
     let mut done: Vec<i64> = vec![];
     let mut closed = false;
+    // the pilot search's final result is held back until every other request has been served and no
+    // new one has arrived for a few quiescent rounds: it stays open while the others wrap around
+    let mut pilot_ids: Vec<i64> = vec![];
+    let mut pilot_idle_rounds = 0;
     loop {
         // absorb everything that is already there
         while let Some(w) = server.try_request() {
             if let Ok(m) = w.msg {
                 let plan = plan_for(&mut rng, m.id, &m.op);
+                if matches!(&m.op, crate::msg::Req::Search { base, .. } if base.ends_with(b"dc=pilot")) {
+                    pilot_ids.push(m.id);
+                }
+                pilot_idle_rounds = 0;
                 let tok = m.op.token_field().and_then(gen::token_of).unwrap_or(u64::MAX - m.id as u64);
                 let mut q = VecDeque::new();
                 for (k, (r, cs)) in plan.iter().enumerate() {
@@ -116,6 +124,10 @@ pub async fn mux_server(mut server: ServerEnd, mut rng: Rng, opts: MuxOpts) -> M
                     // put it back through the same path: re-run absorb by handling inline
                     if let Ok(m) = w.msg {
                         let plan = plan_for(&mut rng, m.id, &m.op);
+                        if matches!(&m.op, crate::msg::Req::Search { base, .. } if base.ends_with(b"dc=pilot")) {
+                            pilot_ids.push(m.id);
+                        }
+                        pilot_idle_rounds = 0;
                         let tok = m.op.token_field().and_then(gen::token_of).unwrap_or(u64::MAX - m.id as u64);
                         let mut q = VecDeque::new();
                         for (k, (r, cs)) in plan.iter().enumerate() {
@@ -136,6 +148,12 @@ pub async fn mux_server(mut server: ServerEnd, mut rng: Rng, opts: MuxOpts) -> M
             }
             continue;
         }
+        // only a pilot's final result is left: wait and see whether more requests come
+        if outstanding.iter().all(|(id, _, q)| pilot_ids.contains(id) && q.len() == 1) && pilot_idle_rounds < 3 {
+            world::settle().await;
+            pilot_idle_rounds += 1;
+            continue;
+        }
         // give the clients a chance to pile up more requests
         for _ in 0..rng.below(4) {
             tokio::task::yield_now().await;
@@ -154,7 +172,15 @@ pub async fn mux_server(mut server: ServerEnd, mut rng: Rng, opts: MuxOpts) -> M
                 bytes.extend_from_slice(&nobody_message(&mut rng, &used, &done, opts.wraps));
                 log.nobody_sent += 1;
             }
-            let ix = rng.usize(outstanding.len());
+            let mut ix = rng.usize(outstanding.len());
+            // a pilot's final result waits for the others
+            if pilot_ids.contains(&outstanding[ix].0) && outstanding[ix].2.len() == 1 {
+                if let Some(other) = (0..outstanding.len()).find(|&j| !(pilot_ids.contains(&outstanding[j].0) && outstanding[j].2.len() == 1)) {
+                    ix = other;
+                } else if pilot_idle_rounds < 3 {
+                    break;
+                }
+            }
             if opts.hostile_ids && rng.chance(1, 4) {
                 // a response whose ID differs from an outstanding one only above bit 31, or is negative
                 let id = outstanding[ix].0;
@@ -505,6 +531,14 @@ pub fn replay(ctx: &Ctx, v: &Value) -> Report {
         }
         if lane == "routing_threads" {
             run_case_on(i, &mut rng, &mut rep, MuxOpts { nobody: true, hostile_ids: false, wraps: false }, &lane, true, true);
+            return rep;
+        }
+        if lane == "stale_requests" {
+            run_stale_case(i, &mut rng, &mut rep, true);
+            return rep;
+        }
+        if lane == "nested_searches" {
+            run_nested_case(i, &mut rng, &mut rep, true);
             return rep;
         }
         run_case(i, &mut rng, &mut rep, MuxOpts { nobody: true, hostile_ids: lane == "hostile_ids", wraps: false }, &lane, true);
@@ -944,4 +978,207 @@ fn run_nested_case(i: u64, rng: &mut Rng, rep: &mut Report, verbose: bool) {
 pub fn nested_searches(ctx: &Ctx) -> Report {
     let n = ctx.n(10_000, 5_000_000);
     par_cases(ctx, "nested_searches", n, ctx.secs(15, 300), |i, rng, rep| run_nested_case(i, rng, rep, false))
+}
+
+// ---------------- requests that went stale before the driver saw them ----------------
+
+/// The driver is kept busy (its write of a first request is held back by the transport) while a
+/// Search is queued behind it and given up by its caller (`with_timeout`).  Once the transport
+/// flows again the ID of that Search is free; a later single-result operation that is handed the
+/// same ID (the counter is positioned with the `verif_set_last_id` hook instead of 2^31
+/// operations) must get the response the server sends under it, like every other operation.
+fn run_stale_case(i: u64, rng: &mut Rng, rep: &mut Report, verbose: bool) {
+    use std::time::Duration;
+    let rt = runtime(rng.next());
+    let stale_n = 1 + rng.usize(3);
+    let stale_kind: Vec<u8> = (0..stale_n).map(|_| rng.below(3) as u8).collect(); // 0 stream, 1 search(), 2 single
+    let start_at: i32 = if rng.chance(1, 4) { i32::MAX - 1 - rng.below(3) as i32 } else { rng.below(5000) as i32 };
+    let reuse_kind = rng.below(4) as u8;
+    let gap_ms = 1 + rng.below(20);
+    let replay = json!({"lane":"stale_requests","case":i});
+    let sk = stale_kind.clone();
+    let (blocker, stale_out, stale_ids, reused, sent_under, drv, wire_kinds) = rt.block_on(async move {
+        let c = connect();
+        let mut server = c.server;
+        let ctl = server.ctl();
+        let ldap = c.ldap;
+        ldap.verif_set_last_id(start_at);
+        let srv = tokio::spawn(async move {
+            let mut seen: Vec<(i64, String)> = vec![];
+            while let Some(w) = server.request().await {
+                if let Ok(m) = w.msg {
+                    seen.push((m.id, m.op.kind().to_string()));
+                    if let Some(r) = crate::msg::reply_for(&m.op, Res::ok(&format!("t:{}:{}", m.id, m.op.kind()))) {
+                        server.send(&ber::encode_min(&resp_node(m.id, &r, None)));
+                    }
+                }
+            }
+            seen
+        });
+        // the peer stops reading: the driver waits inside the write of the first request
+        ctl.stall_writes_after(0);
+        let mut l1 = ldap.clone();
+        let blocker = tokio::spawn(async move { world::watchdog(invoke(&mut l1, &Call::Delete { dn: "op=blocker".into() })).await.unwrap_or(Outcome::Hung) });
+        world::settle().await;
+        let mut stale_out = vec![];
+        let mut stale_ids = vec![];
+        for (k, kind) in sk.iter().enumerate() {
+            let mut l = ldap.clone();
+            l.with_timeout(Duration::from_millis(gap_ms));
+            let o = match kind {
+                0 => match world::watchdog(Caught::new(l.streaming_search(&format!("op=stale{}", k), Scope::Subtree, "(a=b)", vec!["*"]))).await {
+                    Ok(Ok(Ok(_))) => "started".to_string(),
+                    Ok(Ok(Err(e))) => format!("Err({})", world::err_class(&e)),
+                    Ok(Err(p)) => format!("panic:{}", p.site()),
+                    Err(()) => "Hung".into(),
+                },
+                1 => match world::watchdog(Caught::new(l.search(&format!("op=stale{}", k), Scope::Subtree, "(a=b)", vec!["*"]))).await {
+                    Ok(Ok(Ok(_))) => "returned".to_string(),
+                    Ok(Ok(Err(e))) => format!("Err({})", world::err_class(&e)),
+                    Ok(Err(p)) => format!("panic:{}", p.site()),
+                    Err(()) => "Hung".into(),
+                },
+                _ => world::watchdog(invoke(&mut l, &Call::Delete { dn: format!("op=stale{}", k) })).await.unwrap_or(Outcome::Hung).class(),
+            };
+            // the ID the request was given: the last one issued on this connection
+            stale_ids.push(ldap.verif_id_table().0);
+            stale_out.push(o);
+        }
+        world::settle().await;
+        ctl.release_writes();
+        world::settle().await;
+        world::settle().await;
+        let blocker = blocker.await.unwrap_or(Outcome::Hung);
+        // hand the stale IDs out again, to single-result operations
+        let mut reused = vec![];
+        for &sid in &stale_ids {
+            if sid < 1 {
+                continue;
+            }
+            let prev = if sid == 1 { i32::MAX } else { sid - 1 };
+            ldap.verif_set_last_id(prev);
+            let mut l = ldap.clone();
+            let call = match reuse_kind {
+                0 => Call::Delete { dn: format!("op=reuse{}", sid) },
+                1 => Call::Compare { dn: format!("op=reuse{}", sid), attr: "a".into(), val: b"v".to_vec() },
+                2 => Call::Extended { name: format!("1.2.3.{}", sid), val: None },
+                _ => Call::ModDn { dn: format!("op=reuse{}", sid), rdn: "cn=x".into(), delold: true, newsup: None },
+            };
+            let o = world::watchdog(invoke(&mut l, &call)).await.unwrap_or(Outcome::Hung);
+            reused.push((sid, l.last_id(), o));
+            world::settle().await;
+        }
+        drop(ldap);
+        let seen = srv.await.unwrap_or_default();
+        let drv = c.driver.await;
+        let sent_under: Vec<i64> = seen.iter().map(|s| s.0).collect();
+        (blocker, stale_out, stale_ids, reused, sent_under, drv, seen)
+    });
+    if verbose {
+        println!("start_at={} stale={:?} ids={:?} blocker={:?} reused={:?} wire={:?} drv={:?}", start_at, stale_out, stale_ids, blocker.class(), reused, wire_kinds, drv);
+    }
+    match &blocker {
+        Outcome::Res(r) if r.text.ends_with(":delete") => {}
+        o => rep.violation("C01:operation-disturbed:blocked-operation", format!("the operation whose request was held back by the transport: {:?}", o), replay.clone()),
+    }
+    for (k, o) in stale_out.iter().enumerate() {
+        if !o.starts_with("Err(") {
+            rep.inconclusive(format!("stale_requests case {}: request {} was not given up as planned ({})", i, k, o));
+            rep.case(None);
+            return;
+        }
+    }
+    for (sid, got_id, o) in &reused {
+        if got_id != sid {
+            // the allocator may legitimately skip an ID; nothing to judge for this one
+            rep.count("reuse_got_another_id", 1);
+            continue;
+        }
+        let want = format!("t:{}:", sid);
+        let ok = match o {
+            Outcome::Res(r) => r.text.starts_with(&want) && r.rc == 0,
+            _ => false,
+        };
+        if !ok {
+            rep.violation(
+                "C01:operation-disturbed:response-under-a-reused-id-of-a-given-up-request",
+                format!("ID {} had belonged to a request its caller gave up before the driver picked it up; the next operation with that ID was answered under it (server log {:?}) but got {:?}", sid, sent_under, o),
+                replay.clone(),
+            );
+        } else {
+            rep.count("reused_id_answered", 1);
+        }
+    }
+    match drv {
+        Ok(Ok(Ok(()))) => {}
+        other => rep.violation("C01:driver-did-not-exit-cleanly", format!("stale_requests: {:?}", other), replay.clone()),
+    }
+    rep.count(if start_at > i32::MAX - 8 { "stale_near_wrap" } else { "stale_low_ids" }, 1);
+    if i < 2 {
+        rep.sample(json!({"lane":"stale_requests","case":i,"stale_kinds":stale_kind,"stale_outcomes":stale_out,"stale_ids":stale_ids,"requests_seen_by_server":wire_kinds.iter().map(|w| format!("{}:{}", w.0, w.1)).collect::<Vec<_>>()}));
+    }
+    rep.case(Some(fnv(format!("{:?}{}{}", stale_kind, reuse_kind, start_at > i32::MAX - 8).as_bytes())));
+}
+
+pub fn stale_requests(ctx: &Ctx) -> Report {
+    let n = ctx.n(4_000, 2_000_000);
+    par_cases(ctx, "stale_requests", n, ctx.secs(10, 200), |i, rng, rep| run_stale_case(i, rng, rep, false))
+}
+
+// ---------------- StartTLS establishment: the driver's single-operation mode ----------------
+
+/// While `LdapConnSettings::set_starttls(true)` negotiates, the driver runs in its single-operation
+/// mode.  Messages addressed to nobody that arrive before the server's answer must not disturb the
+/// StartTLS operation: the caller gets exactly the result sent under the StartTLS request's ID.
+pub fn starttls_strays(ctx: &Ctx) -> Report {
+    use crate::lanes::starttls::{run, Got, Refusal, Stray};
+    let mut rep = Report::new();
+    let rt = tokio::runtime::Builder::new_multi_thread().worker_threads(2).enable_all().build().expect("rt");
+    let mut rng = case_rng(ctx.seed, "starttls_strays", 0);
+    let reps = if ctx.tiny { 1 } else { ctx.n(12, 300) };
+    let codes = [1u32, 2, 8, 10, 12, 50, 52, 53, 80];
+    let mut hung = false;
+    for r in 0..reps {
+        let n_strays = rng.usize(4);
+        let strays: Vec<Stray> = (0..n_strays)
+            .map(|_| match rng.below(3) {
+                0 => Stray::Unsolicited(*rng.pick(&[0u32, 2, 52])),
+                1 => Stray::UnknownId(1 + rng.below(100) as i64, *rng.pick(&[0u32, 32])),
+                _ => Stray::EntryForUnknownId(1 + rng.below(100) as i64),
+            })
+            .collect();
+        let rc = *rng.pick(&codes);
+        let refusal = Refusal { strays: strays.clone(), res: Res::code(rc, &format!("t:starttls:{}", r)), name: None, split: rng.bool() };
+        let replay = json!({"lane":"starttls_strays","rep":r,"strays":format!("{:?}", strays),"rc":rc});
+        if hung && !strays.is_empty() {
+            continue;
+        }
+        match run(&rt, &refusal) {
+            Err(e) => rep.inconclusive(format!("starttls_strays: {}", e)),
+            Ok(None) => rep.inconclusive("starttls_strays: first attempt expired on the wall clock, the retry passed".to_string()),
+            Ok(Some(Got::Hang)) => {
+                hung = true;
+                rep.violation(
+                    if strays.is_empty() { "C01:starttls:own-response-never-delivered" } else { "C01:starttls:stray-message-disturbs-the-pending-operation" },
+                    format!("strays {:?} then the refusal rc={} under the StartTLS ID: with_settings still pending after 8 s and, alone, after 40 s", strays, rc),
+                    replay,
+                )
+            }
+            Ok(Some(Got::Result { rc: got, text, .. })) => {
+                if got != rc || text != refusal.res.text {
+                    rep.violation("C01:starttls:result-is-not-the-one-sent-under-its-id", format!("strays {:?}; sent rc={} text={:?}, caller got rc={} text={:?}", strays, rc, refusal.res.text, got, text), replay);
+                } else {
+                    rep.count(if strays.is_empty() { "starttls_refusal_plain" } else { "starttls_refusal_after_strays" }, 1);
+                }
+            }
+            Ok(Some(other)) => {
+                // rc 10 etc. are not success: any other outcome means the answer did not reach the operation
+                rep.violation("C01:starttls:result-is-not-the-one-sent-under-its-id", format!("strays {:?}; sent rc={} under the StartTLS ID, caller got {:?}", strays, rc, other), replay)
+            }
+        }
+        rep.case(Some(fnv(format!("{:?}{}", strays, rc).as_bytes())));
+    }
+    rt.shutdown_background();
+    rep.sample(json!({"lane":"starttls_strays","stray_kinds":["unsolicited notification (ID 0)","single-operation response for an unknown ID","search entry for an unknown ID"],"refusal_codes":codes}));
+    rep
 }
